@@ -34,7 +34,7 @@ m = {
               "baseline_off_cmd": "cd /repo && go test -mod=mod -json -vet=off -count=1 -timeout 25m ./...",
               "source_commits": [HOOK_COMMIT], "add_only": True},
     "engines": [{"name": "gosmt", "path": "/verif/engine", "serves_properties": sorted(claims),
-                 "kind_free_text": "SSA (go/ssa) symbolic interpreter + SMT-LIB2 back ends (z3 4.8.12, z3 5.1.0, cvc5 1.0); path forking by re-execution; native replay of solver models via go test -overlay"}],
+                 "kind_free_text": "SSA (go/ssa) symbolic interpreter + SMT-LIB2 back ends (z3 4.8.12, z3 5.1.0, cvc5 1.0); path forking by re-execution; delay-bounded schedule exploration with a vector-clock happens-before monitor; native replay of solver models via go test -overlay (data-race candidates via go test -race)"}],
     "checks": checks,
     "not_applicable": na,
     "notes": "exit 0 = all obligations unsat within bounds and witnesses replayed; exit 1 + VIOLATION = counterexample reproduced natively; exit 2 + INCONCLUSIVE = engine could not decide (never a VIOLATION line).",
